@@ -3,7 +3,7 @@
     Proofs/DriverMainP.v; DESIGN.md 5/C12.  [K : kern] is the record of carrier types and physics
     kernels: every statement holds whatever they compute.  [nosig]: no interrupt (C14 treats those). *)
 From Coq Require Import List ZArith Bool.
-From Inovesa Require Import Model.Driver Gen.Gen_MainLoop Proofs.DriverP Proofs.DriverMainP.
+From Inovesa Require Import Model.Driver Gen.Gen_MainLoop Proofs.DriverP Proofs.DriverMainP Model.DriverInst.
 Import ListNotations.
 Local Open Scope Z_scope.
 
@@ -48,6 +48,28 @@ Theorem C12_cadence_independence_run :
 Proof. exact (fun K c1 c2 t => cadence_independence_run K main_prog c1 c2 t main_cadence_checked). Qed.
 Print Assumptions C12_cadence_independence_run.
 
+(** C12.3, second half (common_records_equal): with [main_split = (hd, ob, el, tl)] the split of the loop
+    body around `if (outstep > 0 && ...)`, for every step n the records the output block appends when
+    entered in run 1 and in run 2 agree on all kept datasets ([cmn]: the eight default datasets, CSR,
+    wake potential, and - with [t = true], same particles tracked - the particle rows; not the
+    phase-space rows, whose cadence differs by design, nor the per-step RF-kick rows, C19).
+    Hypothesis: the CSR update does not depend on the previous contents of the radiation field's
+    buffers (C18's statement about the field object). *)
+Theorem C12_common_records_equal :
+  forall (K : kern), (forall (c c' : tCs K) (p : tP K), k_csrOf K c p = k_csrOf K c' p) ->
+  forall (c1 c2 : cfg) (t : bool), shared c1 c2 ->
+  forall (s1 s2 : st K), dynx K t s1 = dynx K t s2 -> forall n : nat,
+    let '(hd, ob, _, _) := main_split in
+    cmn K t (emit nosig c1 ob (exec_blk nosig c1 hd (iter nosig c1 (p_body main_prog) n (exec_blk nosig c1 (p_pre main_prog) s1)))) =
+    cmn K t (emit nosig c2 ob (exec_blk nosig c2 hd (iter nosig c2 (p_body main_prog) n (exec_blk nosig c2 (p_pre main_prog) s2)))).
+Proof.
+  exact (fun K Hcsr c1 c2 t Hs s1 s2 Hd n =>
+    common_records_equal K Hcsr main_prog c1 c2 t main_cadence_checked main_records_checked Hs
+      (fst (fst (fst main_split))) (snd (fst (fst main_split))) (snd (fst main_split)) (snd main_split)
+      main_split_found s1 s2 Hd n).
+Qed.
+Print Assumptions C12_common_records_equal.
+
 (** C12.4 applyToAll(trackme) never touches the dynamic part *)
 Theorem C12_tracking_is_passive :
   forall (K : kern) (cf : cfg) (m : map) (sig : Z -> bool) (s : st K), dyn (exec sig cf (Track m) s) = dyn s.
@@ -59,5 +81,11 @@ Print Assumptions C12_tracking_is_passive.
 Example C12_shared_example :
   shared (mkcfg 8 2 1 0 true true false) (mkcfg 8 0 0 0 true true false).
 Proof. unfold shared; cbn; tauto. Qed.
+(** the CSR hypothesis is satisfiable (unit instance), and the output block found by the split is the one of C12.1 *)
+Example C12_records_example :
+  (forall (c c' : tCs Inovesa.Model.DriverInst.unitK) (p : tP Inovesa.Model.DriverInst.unitK),
+     k_csrOf Inovesa.Model.DriverInst.unitK c p = k_csrOf Inovesa.Model.DriverInst.unitK c' p) /\
+  snd (fst (fst main_split)) = main_out_block.
+Proof. split; [reflexivity | vm_compute; reflexivity]. Qed.
 Example C12_checker_example : cadence_checker main_prog = true /\ exists r, main_out_block = Seq Integrate r.
 Proof. split; [exact main_cadence_checked | eexists; vm_compute; reflexivity]. Qed.
